@@ -27,6 +27,8 @@ class Tape:
             lst = self.used[stream] = []
         if self.preset is not None:
             p = self.preset.get(stream)
+            if p is not None and stream.startswith("@"):
+                p = None
             i = len(lst)
             v = (p[i] % n) if (p is not None and i < len(p)) else 0
         else:
